@@ -27,6 +27,9 @@ pub struct Model {
     /// WHITESPACE / COMMENT (normal or silent kind) reach non-silent rules.
     pub feat_skip_subrules: bool,
     pub shapes: HashMap<String, BTreeMap<String, String>>,
+    /// The raw AST (what `pest_optimizer = false` compiles) and the getter shapes it asks for.
+    pub raw: Option<Grammar>,
+    pub raw_shapes: HashMap<String, BTreeMap<String, String>>,
 }
 
 impl Model {
@@ -69,7 +72,9 @@ impl Model {
                     }
                 }
                 let shapes = opt.rules.iter().map(|r| (r.name.clone(), refpeg::shape::getter_shapes(r))).collect();
-                Model { id: id.into(), family: family.into(), opt, error: None, alphabet, small_scope, hostile, kinds, uses_stack, feat_explicit_skip, feat_skip_subrules, shapes }
+                let raw = Grammar::raw(text).ok();
+                let raw_shapes = raw.as_ref().map(|g| g.rules.iter().map(|r| (r.name.clone(), refpeg::shape::getter_shapes(r))).collect()).unwrap_or_default();
+                Model { raw, raw_shapes, id: id.into(), family: family.into(), opt, error: None, alphabet, small_scope, hostile, kinds, uses_stack, feat_explicit_skip, feat_skip_subrules, shapes }
             }
             Err(e) => Model {
                 id: id.into(),
@@ -84,6 +89,8 @@ impl Model {
                 feat_explicit_skip: false,
                 feat_skip_subrules: false,
                 shapes: HashMap::new(),
+                raw: None,
+                raw_shapes: HashMap::new(),
             },
         }
     }
@@ -1304,8 +1311,11 @@ fn c15(ctx: &CaseCtx, obs: &CaseObs, l: &mut Local) {
 // ---------------------------------------------------------------------------------------------
 
 fn c16_compare(ctx: &CaseCtx, n: &NodeObs, model: &Outcome, l: &mut Local, count: bool) -> Vec<(String, String, Value)> {
+    c16_compare_with(ctx, n, model, l, count, &ctx.model.shapes[ctx.rule.name])
+}
+
+fn c16_compare_with(ctx: &CaseCtx, n: &NodeObs, model: &Outcome, l: &mut Local, count: bool, shapes: &BTreeMap<String, String>) -> Vec<(String, String, Value)> {
     let mut bad = Vec::new();
-    let shapes = &ctx.model.shapes[ctx.rule.name];
     for g in &n.getters {
         let want: Vec<&refpeg::Mention> = model.mentions.iter().filter(|m| m.name == g.name).collect();
         if count {
@@ -1377,6 +1387,7 @@ fn c16(ctx: &CaseCtx, obs: &CaseObs, full: &Outcome, exp: Option<&Expect>, l: &m
             }
         }
     }
+    c16_noopt(ctx, l);
     let bad = c16_compare(ctx, n, full, l, true);
     if bad.is_empty() {
         return;
@@ -1392,6 +1403,53 @@ fn c16(ctx: &CaseCtx, obs: &CaseObs, full: &Outcome, exp: Option<&Expect>, l: &m
     }
     for (sig, what, wit) in bad {
         l.violation(sig, what, ctx.witness(wit));
+    }
+}
+
+/// Getters of the `pest_optimizer = false` build against the raw AST read the way that build reads it.
+fn c16_noopt(ctx: &CaseCtx, l: &mut Local) {
+    let raw = match &ctx.model.raw {
+        Some(r) => r,
+        None => return,
+    };
+    let v = match ctx.entry.variants.iter().find(|v| v.label == "noopt") {
+        Some(v) => v,
+        None => return,
+    };
+    let f = match v.rules.iter().find(|(n, _)| *n == ctx.rule.name) {
+        Some((_, f)) => *f,
+        None => return,
+    };
+    let shapes = match ctx.model.raw_shapes.get(ctx.rule.name) {
+        Some(s) => s,
+        None => return,
+    };
+    let o = exec_typed(f, ctx.case, ctx.cfg.groups, u64::MAX);
+    let n = match &o.s.parse_partial {
+        Res::Ok(n) => n,
+        _ => return,
+    };
+    let mut candidates = vec![full_opts()];
+    candidates.extend(emulations(ctx).into_iter().map(|e| e.opts));
+    let mut first_bad = None;
+    for opts in candidates {
+        let m = refpeg::run(raw, ctx.rule.name, &ctx.case.s, 0, ctx.case.s.len(), &opts);
+        if m.exhausted || m.zero_progress || m.end != Some(n.end) {
+            continue;
+        }
+        l.count("noopt_getter_cases");
+        let bad = c16_compare_with(ctx, n, &m, l, first_bad.is_none(), shapes);
+        if bad.is_empty() {
+            return;
+        }
+        if first_bad.is_none() {
+            first_bad = Some(bad);
+        }
+    }
+    if let Some(bad) = first_bad {
+        for (sig, what, wit) in bad {
+            l.violation(sig.replace("unclassified/C16/", "unclassified/C16/optimizer-off/"), format!("pest_optimizer = false: {}", what), ctx.witness(wit));
+        }
     }
 }
 
